@@ -180,7 +180,7 @@ class SaveIndexCall(Spec):
 
 class FSPack(Spec):
     func = FSQ + ':FileStorage.pack'
-    props = ('C08', 'C07')
+    props = ('C08',)      # (its crash obligations are C08's; C07 relies on the same contract)
     cases = ('read-only', 'empty', 'already-packing', 'run', 'run-keep-old', 'run-blobs')
     assumptions = ASSUMPTIONS + tuple(timestamp.ASSUMPTIONS)
     max_paths = 20000
